@@ -452,7 +452,20 @@ def stepQuery (st : DState) (e : Sexp) : Option (DState × String) :=
       | .ok q => showBool (evalQuery q triples wf))
   | _ => none
 
+def stepLambda (st : DState) (e : Sexp) : Option (DState × String) :=
+  match e with
+  | .list [.atom "prim", .list (.atom "defs" :: ds), t] => do
+    let ds ← ds.mapM Sexp.ldef?
+    let t ← Sexp.lterm? t
+    pure (st, match primitiveL ds 20000 t with
+      | some r => "ok " ++ r.show ++ (if normalB ds r then "" else " NOT-NORMAL")
+      | none => "E:fuel")
+  | _ => none
+
 def step (st : DState) (e : Sexp) : DState × String :=
+  match stepLambda st e with
+  | some r => r
+  | none =>
   match stepQuery st e with
   | some r => r
   | none =>
